@@ -12,3 +12,18 @@ MUTATIONS = [
       replace="            flags.contains(LockFlags::UNMODIFIED_BASE),\n            lock_data,",
       expect=["read_only-is-not-MUTABLE"]),
 ]
+MUTATIONS += [
+ dict(name="c51-kvstore-open-skips-status-check", props=["C51"], file="radix-engine/src/system/system.rs",
+      find="            if let LockStatus::Locked = lock_status {\n                return Err(RuntimeError::SystemError(SystemError::KeyValueEntryLocked));\n            }",
+      replace="            let _ = lock_status;", expect=["key_value_store_open_entry|status-guard-before-ok"]),
+ dict(name="c51-field-lock-accepts-read-handle", props=["C51"], file="radix-engine/src/system/system.rs",
+      find="            SystemLockData::Field(FieldLockData::Write { .. }) => {}\n            _ => {\n                return Err(RuntimeError::SystemError(SystemError::NotAFieldWriteHandle));\n            }",
+      replace="            SystemLockData::Field(..) => {}\n            _ => {\n                return Err(RuntimeError::SystemError(SystemError::NotAFieldWriteHandle));\n            }",
+      expect=["field_lock|write-handle"]),
+ dict(name="c50-drop-object-blueprint-check-inverted-to-package", props=["C50"], file="radix-engine/src/system/system.rs",
+      find="            if Some(info.blueprint_info.blueprint_id.clone()) != actor.blueprint_id() {",
+      replace="            if actor.blueprint_id().is_none() {", expect=["drop_object|actor-identity"]),
+ dict(name="c50-globalize-skips-package-check", props=["C50"], file="radix-engine/src/system/system.rs",
+      find="        if Some(reserved_blueprint_id.package_address) != actor.package_address() {",
+      replace="        if actor.package_address().is_none() {", expect=["reserved package == actor package"]),
+]
